@@ -3,17 +3,28 @@ C = 'fiddle/_src/config.py'
 S = 'fiddle/_src/signatures.py'
 CASES = [
     dict(id='c06-revert-key-lt-fix', prop='C06', file=D, expect='violation',
-         edits=[("""      if type(self.key) is type(other.key):
-        try:
-          return self.key < other.key
-        except TypeError:
-          pass  # Keys of this type have no order; fall back to their repr.
+         edits=[("""      if type(self.key) is type(other.key) and isinstance(
+          self.key, (int, float, str, bytes)
+      ):
+        return self.key < other.key
       # Keys can be of any (hashable) type; order keys of different types by
       # type name, so that paths of a dict with mixed keys can be sorted.
       return (str(type(self.key)), repr(self.key)) < (
           str(type(other.key)),
           repr(other.key),
       )""", """      return self.key < other.key""")]),
+    dict(id='c06-key-lt-try-only', prop='C06', file=D, expect='violation',
+         names='TOT.path-element-order',
+         edits=[("""      if type(self.key) is type(other.key) and isinstance(
+          self.key, (int, float, str, bytes)
+      ):
+        return self.key < other.key
+""", """      if type(self.key) is type(other.key):
+        try:
+          return self.key < other.key
+        except TypeError:
+          pass
+""")]),
     dict(id='c06-revert-get-default-fix', prop='C06', file=S, expect='violation',
          edits=[("          self.var_positional_start is None\n          or argument < self.var_positional_start", "          self.var_positional_start is not None\n          and argument < self.var_positional_start")]),
     dict(id='c06-asymmetric-defaults', prop='C06', file=C, expect='violation',
@@ -23,11 +34,19 @@ CASES = [
     dict(id='c06-type-check-dropped', prop='C06', file=C, expect='violation',
          edits=[("  if type(x) is not type(y):\n    return False\n", "")]),
     dict(id='c06-traversal-asymmetric', prop='C06', file=C, expect='violation',
-         edits=[("""            y,
-            memoized=True,
-            memoize_internables=False,""", """            y,
-            memoized=True,
-            memoize_internables=True,""")]),
+         edits=[("    y_paths = sorted(_first_paths_in_canonical_order(y))",
+                 "    y_paths = sorted(path for _, path in daglish.iterate(y))")]),
+    dict(id='c06-walk-unsorted-children', prop='C06', file=C, expect='violation',
+         names='ORD.sharing-order-independent',
+         edits=[("      children = sorted(zip(path_elements, values), key=lambda child: child[0])",
+                 "      children = zip(path_elements, values)")]),
+    dict(id='c06-no-identity-shortcut', prop='C06', file=C, expect='violation',
+         names='identity-first',
+         edits=[("    if v1 is not v2 and v1 != v2:", "    if v1 != v2:")]),
+    dict(id='c06-benign-walk-sorted-inline', prop='C06', file=C, expect='silent',
+         edits=[("""      children = sorted(zip(path_elements, values), key=lambda child: child[0])
+      for path_element, child in children:""", """      for path_element, child in sorted(
+          zip(path_elements, values), key=lambda pair: pair[0]):""")]),
     dict(id='c06-eq-no-dag', prop='C06', file=C, expect='violation',
          edits=[("    return _compare_buildable(self, other, check_dag=True)", "    return _compare_buildable(self, other, check_dag=False)")]),
     dict(id='c06-no-default-fallback', prop='C06', file=C, expect='violation',
@@ -35,6 +54,6 @@ CASES = [
     dict(id='c06-index-lt-string', prop='C06', file=D, expect='violation',
          edits=[("  index: int\n\n  @property\n  def code(self) -> str:\n    return f\"[{self.index}]\"", "  index: Any\n\n  @property\n  def code(self) -> str:\n    return f\"[{self.index}]\"")]),
     # benign
-    dict(id='c06-benign-key-lt-early-return', prop='C06', file=D, expect='silent',
-         edits=[("        except TypeError:\n          pass  # Keys of this type have no order; fall back to their repr.", "        except (TypeError, ValueError):\n          pass")]),
+    dict(id='c06-benign-key-lt-tuple-order', prop='C06', file=D, expect='silent',
+         edits=[("          self.key, (int, float, str, bytes)\n", "          self.key, (str, bytes, int, float)\n")]),
 ]
